@@ -152,7 +152,13 @@ fn apply(p: &Prog, e: &Edit) -> (Prog, Vec<(usize, Fate)>, Vec<usize>) {
 }
 
 fn render_without(p: &Prog, removed: &[usize]) -> String {
-    (0..p.streams.len()).filter(|i| !removed.contains(i)).map(|i| p.render_stream(i)).collect::<Vec<_>>().join("\n")
+    let body = (0..p.streams.len()).filter(|i| !removed.contains(i)).map(|i| p.render_stream(i)).collect::<Vec<_>>().join("\n");
+    // keep the user function that `.process(gen2())` streams call
+    if (0..p.streams.len()).any(|i| !removed.contains(&i) && matches!(p.streams[i], Shape::Process { .. })) {
+        format!("{}\n{}", PROCESS_FN, body)
+    } else {
+        body
+    }
 }
 
 fn per_stream(o: &[OutEv]) -> BTreeMap<String, Vec<OutEv>> {
